@@ -89,8 +89,26 @@ func c04Limits(c *Ctx) {
 	for name, v := range want {
 		cst, ok := pk.Types.Scope().Lookup(name).(*types.Const)
 		if !ok {
-			r.Fail("C04/LIMITS", "constant "+name, "", "the documented limit constant is gone")
-			continue
+			// renamed: an unexported integer constant of the package with the documented value that
+			// no other documented name claims
+			var cands []*types.Const
+			for _, n2 := range pk.Types.Scope().Names() {
+				c2, isC := pk.Types.Scope().Lookup(n2).(*types.Const)
+				if !isC || token.IsExported(n2) || c2.Val().Kind() != constant.Int {
+					continue
+				}
+				if _, claimed := want[n2]; claimed {
+					continue
+				}
+				if got, exact := constant.Int64Val(c2.Val()); exact && got == v {
+					cands = append(cands, c2)
+				}
+			}
+			if len(cands) == 0 {
+				r.Fail("C04/LIMITS", "constant "+name, "", "the documented limit constant is gone")
+				continue
+			}
+			cst = cands[0]
 		}
 		got, _ := constant.Int64Val(constant.ToInt(cst.Val()))
 		r.Check(got == v, "C04/LIMITS", "constant "+name, p.Pos(cst.Pos()), fmt.Sprintf("= %d", v), fmt.Sprintf("is %d, documented %d", got, v))
